@@ -162,6 +162,22 @@ def lake_build(targets, timeout=3600):
     failed = sorted(set(re.findall(r"^- (SkinnyVerif[\w.]*)", log, re.M)))
     return p.returncode == 0, failed, log
 
+def failing_lemmas(log):
+    """names of the theorems in which `lake build` reported errors (the declaration enclosing each error position)"""
+    out = []
+    for m in re.finditer(r"^error: (SkinnyVerif/[\w/]+\.lean):(\d+):\d+", log, re.M):
+        path = os.path.join(LEAN, m.group(1)); line = int(m.group(2))
+        try:
+            src = open(path).read().split("\n")
+        except OSError:
+            continue
+        for k in range(min(line, len(src)) - 1, -1, -1):
+            d = re.match(r"^\s*(?:@\[[^\]]*\]\s*)?(?:private\s+)?(?:theorem|lemma|def|example)\s+([\w.']+)", src[k])
+            if d:
+                out.append("%s (%s)" % (d.group(1), os.path.basename(path))); break
+    seen = []; [seen.append(x) for x in out if x not in seen]
+    return seen[:12]
+
 FORBIDDEN = re.compile(r"\b(sorry|admit|native_decide|bv_decide|implemented_by|unsafe)\b|^\s*axiom\s|maxHeartbeats 0\b", re.M)
 def strip_comments(txt):
     txt = re.sub(r"/-.*?-/", "", txt, flags=re.S)
